@@ -126,3 +126,149 @@ func idProbeV5(wg [3]int, px, py int) (*insts.KernelCodeObject, []string, error)
 	co, err := p.CodeObject(KernelSpec{KernargBytes: 16, SGPRs: 24, VGPRs: 24, WGIDX: true, WGIDY: true, WGIDZ: true, VGPRWorkItem: 2, V5: true})
 	return co, p.Listing(), err
 }
+
+// OutArgs is the argument struct of kernels with one output buffer.
+type OutArgs struct {
+	Out uint64
+}
+
+// BarrierExchange builds a work-group communication kernel: a work-group of
+// nWf wavefronts (64*nWf work-items, 1-D) exchanges values through LDS in
+// `rounds` rounds. In every round each work-item writes its value to its LDS
+// slot, waits at a barrier, reads the slot of the work-item 64*(r+1) positions
+// further (a different wavefront when nWf > 1), computes value = read*3 + r+1
+// and waits at a second barrier. Finally out[gid] = value. Wavefronts whose
+// index bit is set in earlyExit write their slot and end before the first
+// barrier. The returned closure computes the expected out array of one
+// work-group (exited work-items have no output: they keep the initial fill).
+func BarrierExchange(nWf, rounds int, earlyExit uint) (*insts.KernelCodeObject, func(wgID int, out []uint32), []string, error) {
+	n := 64 * nWf
+	p := New()
+	p.SLoadDwordX2(8, 0, 0)                  // s[8:9] = out
+	p.SMovB32(M0, Imm(-1))                   // LDS limit
+	p.SMulI32(S(12), S(2), p.Lit(uint32(n))) // wgid * n
+	p.VAddU32(3, S(12), 0)                   // gid
+	p.VMulU32U24(4, Imm(7), 3)
+	p.VAddU32(4, Imm(3), 4)     // value = gid*7+3
+	p.VLshlrevB32(5, Imm(2), 0) // own LDS address
+	p.VMovB32(8, p.Lit(uint32(n)))
+	if earlyExit != 0 {
+		p.DsWriteB32(5, 4, 0)
+		p.SWaitcnt(15, 0)
+		p.VReadfirstlaneB32(13, 0)
+		p.SLshrB32(S(13), S(13), Imm(6)) // wavefront index
+		for w := 0; w < nWf; w++ {
+			if earlyExit>>uint(w)&1 == 1 {
+				p.SCmpEqU32(S(13), Imm(int32(w)))
+				p.SCbranchScc1("exit")
+			}
+		}
+	}
+	for r := 0; r < rounds; r++ {
+		p.DsWriteB32(5, 4, 0)
+		p.SWaitcnt(15, 0)
+		p.SBarrier()
+		p.VAddU32(6, p.Lit(uint32(64*(r+1)%n)), 0) // partner = lid + shift
+		p.VSubU32(7, V(6), 8)                      // partner - n
+		p.VCmpLtU32(V(6), 8)                       // vcc = partner < n
+		p.VCndmaskB32(6, V(7), 6)                  // vcc ? partner : partner-n
+		p.VLshlrevB32(6, Imm(2), 6)
+		p.DsReadB32(9, 6, 0)
+		p.SWaitcnt(15, 0)
+		p.VMulU32U24(4, Imm(3), 9)
+		p.VAddU32(4, Imm(int32(r+1)), 4)
+		p.SBarrier()
+	}
+	p.VLshlrevB32(10, Imm(2), 3)
+	p.SWaitcnt(15, 0)
+	p.VMovB32(12, S(9))
+	p.VAddU32(11, S(8), 10)
+	p.VAddcU32(12, Imm(0), 12)
+	p.FlatStoreDword(11, 4)
+	p.SWaitcnt(0, 0)
+	p.Label("exit")
+	p.SEndpgm()
+	co, err := p.CodeObject(KernelSpec{KernargBytes: 8, LDSBytes: uint32(4 * n), SGPRs: 16, VGPRs: 16, WGIDX: true})
+	expect := func(wgID int, out []uint32) {
+		vals := make([]uint32, n)
+		exited := make([]bool, n)
+		for i := range vals {
+			vals[i] = uint32(wgID*n+i)*7 + 3
+			exited[i] = earlyExit>>uint(i/64)&1 == 1
+		}
+		lds := append([]uint32{}, vals...)
+		for r := 0; r < rounds; r++ {
+			for i := range vals {
+				if !exited[i] {
+					lds[i] = vals[i]
+				}
+			}
+			next := make([]uint32, n)
+			for i := range vals {
+				next[i] = lds[(i+64*(r+1))%n]*3 + uint32(r+1)
+			}
+			vals = next
+		}
+		for i := range out {
+			if exited[i] {
+				out[i] = 0xffffffff // never written
+			} else {
+				out[i] = vals[i]
+			}
+		}
+	}
+	return co, expect, p.Listing(), err
+}
+
+// WaitArgs is the argument struct of the wait-count kernel.
+type WaitArgs struct {
+	In  uint64
+	Out uint64
+	K   uint32
+	N   uint32
+}
+
+// WaitCount builds the wait-count kernel: every work-item loads a = in[gid]
+// and b = in[gid+N] into registers pre-set to sentinels, waits with
+// s_waitcnt vmcnt(1) before using a and vmcnt(0) before using b, loads the
+// scalar K with s_load_dword / lgkmcnt(0), and stores out[gid] = a*5 + b + K.
+// A wait count that lets a dependant through early makes it read a sentinel.
+func WaitCount(wgSize int) (*insts.KernelCodeObject, []string, error) {
+	p := New()
+	p.SLoadDwordX4(8, 0, 0)   // s[8:9] = in, s[10:11] = out
+	p.SLoadDwordX2(20, 0, 16) // s20 = K, s21 = N
+	p.SMulI32(S(12), S(2), p.Lit(uint32(wgSize)))
+	p.VAddU32(3, S(12), 0) // gid
+	p.VMovB32(10, p.Lit(0x00dead00))
+	p.VMovB32(11, p.Lit(0x00beef00))
+	p.VLshlrevB32(4, Imm(2), 3)
+	p.SWaitcnt(15, 0)
+	p.VMovB32(6, S(9))
+	p.VAddU32(5, S(8), 4)
+	p.VAddcU32(6, Imm(0), 6) // &in[gid]
+	p.FlatLoadDword(10, 5)
+	p.SLshlB32(S(13), S(21), Imm(2))
+	p.VAddU32(5, S(13), 5)
+	p.VAddcU32(6, Imm(0), 6) // &in[gid+N]
+	p.FlatLoadDword(11, 5)
+	p.SWaitcnt(1, 15)
+	p.VMulU32U24(12, Imm(5), 10)
+	p.SWaitcnt(0, 15)
+	p.VAddU32(12, V(11), 12)
+	p.VAddU32(12, S(20), 12)
+	p.VMovB32(8, S(11))
+	p.VAddU32(7, S(10), 4)
+	p.VAddcU32(8, Imm(0), 8)
+	p.FlatStoreDword(7, 12)
+	p.SWaitcnt(0, 0)
+	p.SEndpgm()
+	co, err := p.CodeObject(KernelSpec{KernargBytes: 24, SGPRs: 24, VGPRs: 16, WGIDX: true})
+	return co, p.Listing(), err
+}
+
+// Empty builds a kernel that ends at once.
+func Empty() (*insts.KernelCodeObject, error) {
+	p := New()
+	p.SEndpgm()
+	return p.CodeObject(KernelSpec{KernargBytes: 8, SGPRs: 8, VGPRs: 4, WGIDX: true})
+}
